@@ -147,6 +147,14 @@ const AddKeys = `(function (g) { var names = Object.getOwnPropertyNames(g).sort(
     if ((typeof v === "object" && v !== null) || typeof v === "function") { try { v["added_%TAG"] = i; n++; } catch (e) {} } }
   return n; })(this)`
 
+// ProbeKeys counts the global objects and functions on which a property named with the OTHER side's tag can be
+// found by name (own or inherited) although this side never added it: a property table shared between the clones
+// answers lookups by name even when the key list (what getOwnPropertyNames and the dump see) is per clone.
+const ProbeKeys = `(function (g) { var names = Object.getOwnPropertyNames(g).sort(), seen = [];
+  for (var i = 0; i < names.length; i++) { var v; try { v = g[names[i]]; } catch (e) { continue; }
+    if ((typeof v === "object" && v !== null) || typeof v === "function") { try { if (("added_%TAG" in v) || v["added_%TAG"] !== undefined || Object.getOwnPropertyDescriptor(v, "added_%TAG") !== undefined) seen.push(names[i]); } catch (e) {} } }
+  return seen.join(); })(this)`
+
 // Mutators: programs that change the heap built by the builders (assignments, deletions,
 // defineProperty, freezing, prototype edits, closure state changes, built-in edits). Every
 // statement is guarded so that a missing name does not stop the rest.
